@@ -30,7 +30,7 @@ pub fn register(l: &mut Vec<Obl>) {
     cone!("hsv", Hsv<Srgb, T>, 360.0);
     cone!("okhsv", Okhsv<T>, 360.0);
     macro_rules! bicone {
-        ($key:literal, $Ty:ty) => {
+        ($key:literal, $Ty:ty, $height:ident, $scale:expr) => {
             obl!(l; concat!("c19_", $key, "_standard_is_bicone_volume_law"), "C19", Tier::Quick,
                 concat!("Standard sample of ", stringify!($Ty), ": the lightness l satisfies the bicone CDF 4 l^3 = r1 for r1 <= 1/2 and 4 (1-l)^3 = 1 - r1 above, saturation^2 = r2 (1e-6), sample within bounds"),
                 ["impl_rand_traits_hsl_bicone! (Distribution<_> for Standard)", "random_sampling::cone::sample_hsl", "random_sampling::cone::sample_bicone_height"],
@@ -39,18 +39,20 @@ pub fn register(l: &mut Vec<Obl>) {
                     let mut r = Res::<B>::new();
                     let mut rng = <T as RngFor>::rng(&v[..]);
                     let c: $Ty = rng.gen();
-                    let li = c.lightness;
+                    let li = c.$height / T::k($scale);
+                    let sat = c.saturation / T::k($scale);
                     let lower = v[1].le(T::k(0.5));
                     let up = T::k(1.0) - li;
                     r.goal("lightness_cdf", (lower & (T::k(4.0) * li * li * li).close(v[1], 1e-6)) | (!lower & (T::k(4.0) * up * up * up).close(T::k(1.0) - v[1], 1e-6)));
-                    r.goal("saturation_squared_is_r2", (c.saturation * c.saturation).close(v[2], 1e-6));
-                    r.goal("within_bounds", c.saturation.within_tol(0.0, 1.0, 1e-9) & li.within_tol(0.0, 1.0, 1e-9));
+                    r.goal("saturation_squared_is_r2", (sat * sat).close(v[2], 1e-6));
+                    r.goal("within_bounds", sat.within_tol(0.0, 1.0, 1e-9) & li.within_tol(0.0, 1.0, 1e-9));
                     r
                 });
         };
     }
-    bicone!("hsl", Hsl<Srgb, T>);
-    bicone!("okhsl", Okhsl<T>);
+    bicone!("hsl", Hsl<Srgb, T>, lightness, 1.0);
+    bicone!("okhsl", Okhsl<T>, lightness, 1.0);
+    bicone!("hsluv", palette::Hsluv<palette::white_point::D65, T>, l, 100.0);
     macro_rules! hwb {
         ($key:literal, $Ty:ty, $Hsv:ty) => {
             obl!(l; concat!("c19_", $key, "_standard_is_cone_volume_law"), "C19", Tier::Quick,
@@ -103,4 +105,62 @@ pub fn register(l: &mut Vec<Obl>) {
     uniform_bicone!("hsl", Hsl<Srgb, T>, palette::RgbHue<T>, lightness, 1.0);
     uniform_bicone!("okhsl", Okhsl<T>, palette::OklabHue<T>, lightness, 1.0);
     uniform_bicone!("hsluv", palette::Hsluv<palette::white_point::D65, T>, palette::LuvHue<T>, l, 100.0);
+    // uniform samplers of the cone-shaped spaces and of their HWB forms (equivalent HSV saturation and value between the ends)
+    macro_rules! uniform_cone {
+        ($key:literal, $Ty:ty, $Hue:ty) => {
+            uniform_cone!(@one $key, "new", new, $Ty, $Hue);
+            uniform_cone!(@one $key, "new_inclusive", new_inclusive, $Ty, $Hue);
+        };
+        (@one $key:literal, $kname:literal, $kind:ident, $Ty:ty, $Hue:ty) => {
+            oblf!(l; concat!("c19_", $key, "_uniform_", $kname, "_between_real"), "C19", Tier::Quick,
+                concat!("Uniform::", $kname, "(lo, hi).sample of ", stringify!($Ty), " in real arithmetic (cube / cube root and square / square root exact): saturation and value of the sample lie between those of lo and hi (1e-6) for all ends with lo + 1% <= hi in both components and every triple of uniform draws (rand's Uniform taken as its contract); hue ends 10 and 200 degrees"),
+                ["impl_rand_traits_hsv_cone! (UniformSampler::new / new_inclusive / sample)", "random_sampling::cone::{invert_hsv_sample, sample_hsv}"],
+                [var("lo_s", 0.0, 1.0), var("hi_s", 0.0, 1.0), var("lo_v", 0.0, 1.0), var("hi_v", 0.0, 1.0), var("u_hue", 0.0, 1.0), var("u1", 0.0, 1.0), var("u2", 0.0, 1.0)];
+                |v| {
+                    use rand::distributions::uniform::UniformSampler;
+                    let mut r = Res::<B>::new();
+                    r.assume((v[0] + T::k(0.01)).le(v[1]) & (v[2] + T::k(0.01)).le(v[3]));
+                    let lo = <$Ty>::new(<$Hue>::new(T::k(10.0)), v[0], v[2]);
+                    let hi = <$Ty>::new(<$Hue>::new(T::k(200.0)), v[1], v[3]);
+                    let mut rng = <T as RngFor>::rng(&v[4..7]);
+                    let u = <<$Ty as rand::distributions::uniform::SampleUniform>::Sampler as UniformSampler>::$kind(lo, hi);
+                    let c = u.sample(&mut rng);
+                    r.goal("saturation_between", (v[0] - T::k(1e-6)).le(c.saturation) & c.saturation.le(v[1] + T::k(1e-6)));
+                    r.goal("value_between", (v[2] - T::k(1e-6)).le(c.value) & c.value.le(v[3] + T::k(1e-6)));
+                    r
+                });
+        };
+    }
+    uniform_cone!("hsv", Hsv<Srgb, T>, palette::RgbHue<T>);
+    uniform_cone!("okhsv", Okhsv<T>, palette::OklabHue<T>);
+    macro_rules! uniform_hwb {
+        ($key:literal, $Ty:ty, $Hue:ty) => {
+            uniform_hwb!(@one $key, "new", new, $Ty, $Hue);
+            uniform_hwb!(@one $key, "new_inclusive", new_inclusive, $Ty, $Hue);
+        };
+        (@one $key:literal, $kname:literal, $kind:ident, $Ty:ty, $Hue:ty) => {
+            oblf!(l; concat!("c19_", $key, "_uniform_", $kname, "_between_real"), "C19", Tier::Quick,
+                concat!("Uniform::", $kname, "(lo, hi).sample of ", stringify!($Ty), " in real arithmetic: the equivalent HSV value v = 1 - blackness and saturation s (s v = v - whiteness) of the sample lie between those of the two ends (1e-6), the ends being given by their HSV saturation in [0,1] and value in [0.05,1] (whiteness = (1 - s) v, blackness = 1 - v), lo + 1% <= hi in both; every triple of uniform draws; hue ends 10 and 200 degrees"),
+                ["impl_rand_traits_hwb_cone! (UniformSampler::new / new_inclusive / sample)", "<Hsv as FromColorUnclamped<Hwb>>", "<Hwb as FromColorUnclamped<Hsv>>", "random_sampling::cone::{invert_hsv_sample, sample_hsv}"],
+                [var("lo_s", 0.0, 1.0), var("hi_s", 0.0, 1.0), var("lo_v", 0.05, 1.0), var("hi_v", 0.05, 1.0), var("u_hue", 0.0, 1.0), var("u1", 0.0, 1.0), var("u2", 0.0, 1.0)];
+                |v| {
+                    use rand::distributions::uniform::UniformSampler;
+                    let mut r = Res::<B>::new();
+                    r.assume((v[0] + T::k(0.01)).le(v[1]) & (v[2] + T::k(0.01)).le(v[3]));
+                    let one = T::k(1.0);
+                    let lo = <$Ty>::new(<$Hue>::new(T::k(10.0)), (one - v[0]) * v[2], one - v[2]);
+                    let hi = <$Ty>::new(<$Hue>::new(T::k(200.0)), (one - v[1]) * v[3], one - v[3]);
+                    let mut rng = <T as RngFor>::rng(&v[4..7]);
+                    let u = <<$Ty as rand::distributions::uniform::SampleUniform>::Sampler as UniformSampler>::$kind(lo, hi);
+                    let c = u.sample(&mut rng);
+                    let val = one - c.blackness;
+                    let sv = val - c.whiteness;
+                    r.goal("value_between", (v[2] - T::k(1e-6)).le(val) & val.le(v[3] + T::k(1e-6)));
+                    r.goal("saturation_between", (v[0] * val - T::k(1e-6)).le(sv) & sv.le(v[1] * val + T::k(1e-6)));
+                    r
+                });
+        };
+    }
+    uniform_hwb!("hwb", Hwb<Srgb, T>, palette::RgbHue<T>);
+    uniform_hwb!("okhwb", Okhwb<T>, palette::OklabHue<T>);
 }
